@@ -121,6 +121,16 @@ func Generate(r *lp.Rng, o Opts) *Design {
 			HTTP:    &HTTPMap{Verb: "GET", Path: "/warehouses/{warehouse}/items/{item}", MorePaths: []string{"/items/{item}/in/{warehouse}"}}}
 		s.Methods = append(s.Methods, m)
 	}
+	if o.Index%10 == 5 || o.Index%10 == 8 {
+		// file servers: one on a path of its own, one with a wildcard, and one sharing its request path with an
+		// endpoint of the same service that answers another verb
+		s := g.d.Services[0]
+		s.Files = append(s.Files, []string{"/assets/doc.json", "public/doc.json"}, []string{"/static/{*filepath}", "public"})
+		up := g.plainMethod(s, "upload_shared")
+		up.HTTP.Verb = "POST"
+		up.NoSecurity = o.Security
+		s.Files = append(s.Files, []string{up.HTTP.Path, "public/shared.json"})
+	}
 	if o.Security && len(g.d.Schemes) > 0 {
 		g.securityShapes()
 	}
@@ -583,6 +593,12 @@ func (g *gen) securityShapes() {
 			m.Security[1].Scopes = []string{"two:write"}
 		}
 		g.credentials(m, m.Security)
+		if kind == "jwt" {
+			// both schemes in ONE requirement: they read the same token, both callbacks must accept
+			both := g.plainMethod(s, "both")
+			both.Security = []Req{{Schemes: []string{first.Name, second.Name}, Scopes: []string{"two:read"}}}
+			g.credentials(both, both.Security)
+		}
 		if kind == "apikey" {
 			// the two keys travel in headers of their own
 			for attr := range m.Creds {
@@ -967,6 +983,16 @@ func (g *gen) method(s *Service, name string, cell int) {
 			m.Errors = append(m.Errors, &ErrDef{Name: "alpha"}, &ErrDef{Name: "beta", Temporary: true})
 			h.Errors = append(h.Errors, &ErrResp{Name: "alpha", Code: 422},
 				&ErrResp{Name: "beta", Code: 422, Headers: []Mapped{{Attr: "message", Wire: "X-Error-Message"}}})
+		}
+		switch g.o.Index % 4 {
+		case 2:
+			// an error of the default type answered without a body: its attributes travel in goa-attribute-* headers
+			m.Errors = append(m.Errors, &ErrDef{Name: "gone", Temporary: true})
+			h.Errors = append(h.Errors, &ErrResp{Name: "gone", Code: 410, Body: &BodySpec{Empty: true}})
+		case 3:
+			// the status given inside the response DSL: Response("teapot", func() { Code(418) })
+			m.Errors = append(m.Errors, &ErrDef{Name: "teapot"})
+			h.Errors = append(h.Errors, &ErrResp{Name: "teapot", Code: 418, FuncCode: true})
 		}
 		for i := 0; i < ne; i++ {
 			en := []string{"not_found", "bad_thing", "busy"}[i]
